@@ -79,9 +79,12 @@ func (w *World) fill(op Op) Op {
 
 // Exhaustive enumerates all paths of length depth; beyond that, `extra` random continuation steps
 // are sampled for a fraction of the paths (thorough tier).
-func Exhaustive(s *shardSet, rng *rand.Rand, depth, maxViews int, sampleDeeper int) int {
+func Exhaustive(s *shardSet, rng *rand.Rand, depth, maxViews int, sampleDeeper int, only map[string]bool) int {
 	paths := 0
 	for _, p := range preparedWorlds() {
+		if only != nil && !only[p.name] {
+			continue
+		}
 		var rec func(prefix []int)
 		runPath := func(prefix []int, w *World) []Op {
 			w.Reset()
